@@ -287,6 +287,7 @@ def rule_templates(rep: Report) -> None:
 		for c_ in tree.find_all(n.Call):
 			if isinstance(c_.node, n.Name) and c_.node.name == 'reg_replace' and c_.args:
 				cands.append((c_, c_.args[0], 'reg_replace'))
+		cands = [(node, alt, kind) for node, pat, kind in cands for alt in tm.alternatives(pat)]
 		for node, pat, kind in cands:
 			parts = parts_of(pat)
 			merged: list = []
